@@ -116,6 +116,7 @@ type refResult struct {
 	GasUsed uint64
 	Logs    []*ethtypes.Log
 	Created string // deployed contract address
+	CreatedAll []string // every account that received code in this transaction
 	Touched []common.Address
 	Burn    *big.Int // value destroyed by self-destruct-to-self
 }
@@ -244,6 +245,7 @@ func (r *RefEVM) exec(ws *MState, from, to []byte, nonce, gas uint64, price, amt
 	for a := range rs.created {
 		if len(r.sdb.GetCode(a)) > 0 {
 			r.Contracts[hx(a[:])] = true
+			res.CreatedAll = append(res.CreatedAll, hx(a[:]))
 		}
 	}
 	return res
@@ -409,6 +411,12 @@ func (m *Model) applyEVMTx(ws *MState, ti *TxInfo, r *abci.ResponseDeliverTx, h 
 	if ref.Created != "" {
 		wantRet = addrBytes(ref.Created)
 		ws.acct(ref.Created).Code = ti.Hash
+	}
+	for _, ca := range ref.CreatedAll {
+		// every contract account carries the hash of the transaction that created it
+		if a := ws.acct(ca); a.Code == "" {
+			a.Code = ti.Hash
+		}
 	}
 	if hx(wantRet) != hx(r.Data) {
 		issue("C17", "evm-return-data-mismatch", fmt.Sprintf("reference %x, application %x", wantRet, r.Data))
